@@ -11,7 +11,7 @@ What is read (token level; comments dropped, `#if 0 / #else / #endif` evaluated,
       * the "Nodes that can't be deleted" condition: one row per (parent label, node label | node name) -> `not_deletable`
       * the dispatch: one DBlock per `if (strcmp(posit->label, ..)==0 || ..)` arm with the struct type posit->posit is
         cast to, and one DRow per inner `if / else if` arm: its tests (node_label == L | node_name == N |
-        posit->label == P && node_name == N) and what it does:
+        node_name == N && parent->FIELD | posit->label == P && node_name == N) and what it does:
             Shift cnt arr free custom      CGNS_DELETE_SHIFT(cnt, arr, free)  (custom = the hand-expanded copy of the
                                            macro; every column of the expansion must agree, else Unparsed)
             Child ptr free custom          CGNS_DELETE_CHILD(ptr, free)       (custom = hand-expanded)
@@ -128,7 +128,11 @@ def parse_tests(toks, i):
                 elif k1 == "L":
                     tests.append("TLabel " + cs(c["@s"]))
                 else:
-                    tests.append("TName " + cs(c["@s"]))
+                    c3 = {}
+                    if cur.try_eat("&& parent -> $f", c3):          # the name counts only while that single child exists
+                        tests.append("TNameIf %s %s" % (cs(c["@s"]), cs(c3["$f"])))
+                    else:
+                        tests.append("TName " + cs(c["@s"]))
             if cur.i == end:
                 return
             cur.eat("||")
